@@ -233,4 +233,151 @@ theorem lookupNat_append {α : Type} (a b : List (Nat × α)) (n : Nat) :
     · simp [lookupNat, hk]
     · simp [lookupNat, hk, ih]
 
+/-! ### The object cache never changes an answer -/
+
+/-- Every cached pair is in the graph of `resolve`. -/
+def CacheOK (whole : History) (c : Cache) : Prop :=
+  ∀ k v, lookupNat c k = some v → specGetobj whole k = .ok v
+
+theorem cacheOK_nil (whole : History) : CacheOK whole [] := by
+  intro k v h; simp [lookupNat] at h
+
+theorem cacheOK_cons {whole : History} {c : Cache} {n : Nat} {v : Val} (h : CacheOK whole c)
+    (hv : specGetobj whole n = .ok v) : CacheOK whole ((n, v) :: c) := by
+  intro k v' hk
+  simp only [lookupNat] at hk
+  by_cases hnk : n = k
+  · subst hnk
+    simp only [beq_self_eq_true, ↓reduceIte, Option.some.injEq] at hk
+    rw [← hk]; exact hv
+  · have : (n == k) = false := by simpa using hnk
+    simp only [this, Bool.false_eq_true, ↓reduceIte] at hk
+    exact h k v' hk
+
+theorem parseAt_direct {whole objs n v e} (hs : e.strm = none) (h : entryOK whole objs n v e = true) :
+    parseAt objs e.idx n = .ok v := by
+  have := tryEntry_direct (whole := whole) (fun _ => .error .notFound) hs h
+  unfold tryEntry at this
+  rw [hs] at this
+  exact this
+
+theorem member_of_entryOK {whole objs n v e cont} (hs : e.strm = some cont)
+    (h : entryOK whole objs n v e = true) :
+    ∃ id k toks, resolve whole cont = some (.objstm id k toks) ∧
+      objstmMember (.objstm id k toks) e.idx = .ok v ∧ (∀ id' k' toks', v ≠ .objstm id' k' toks') := by
+  obtain ⟨id, k, toks, hc, himp, hno⟩ := tryEntry_comp (specGetobj whole) hs h
+  refine ⟨id, k, toks, hc, ?_, hno⟩
+  have := himp (by simp [specGetobj, hc])
+  unfold tryEntry at this
+  rw [hs] at this
+  simpa [specGetobj, hc] using this
+
+theorem searchC_rep {whole objs ss rs} (h : Rep whole objs ss rs) (n : Nat)
+    (rec : Cache → Nat → Except Err Val × Cache) (c : Cache) (hc : CacheOK whole c)
+    (hrec : (∃ id k toks, resolve rs n = some (.objstm id k toks)) ∨
+            (∀ c0 cont id k toks, CacheOK whole c0 → resolve whole cont = some (.objstm id k toks) →
+               (rec c0 cont).1 = .ok (.objstm id k toks) ∧ CacheOK whole (rec c0 cont).2)) :
+    (searchC objs rec n ss c).1 = specGetobj rs n ∧ CacheOK whole (searchC objs rec n ss c).2 := by
+  induction h with
+  | nil => exact ⟨by simp [searchC, specGetobj, resolve], by simpa [searchC] using hc⟩
+  | @cons s ss r rs hs _ ih =>
+    have hn := hs n
+    cases hl : r.lookup n with
+    | none =>
+      rw [hl] at hn
+      simp only at hn
+      have : searchC objs rec n (s :: ss) c = searchC objs rec n ss c := by
+        simp [searchC, hn]
+      rw [this]
+      unfold specGetobj
+      rw [resolve_cons_none hl]
+      apply ih
+      cases hrec with
+      | inl h1 => left; rw [resolve_cons_none hl] at h1; exact h1
+      | inr h2 => right; exact h2
+    | some v =>
+      rw [hl] at hn
+      simp only at hn
+      obtain ⟨e, hg, hok⟩ := hn
+      have hres : specGetobj (r :: rs) n = .ok v := by
+        unfold specGetobj; rw [resolve_cons_some hl]
+      rw [hres]
+      have htry : (tryEntryC objs rec c n e).1 = .ok v ∧ CacheOK whole (tryEntryC objs rec c n e).2 := by
+        cases hst : e.strm with
+        | none =>
+          unfold tryEntryC
+          rw [hst]
+          exact ⟨parseAt_direct hst hok, hc⟩
+        | some cont =>
+          obtain ⟨id, k, toks, hcont, hmem, hno⟩ := member_of_entryOK hst hok
+          cases hrec with
+          | inl h1 =>
+            obtain ⟨id', k', toks', hv⟩ := h1
+            rw [resolve_cons_some hl] at hv
+            exact absurd (Option.some.inj hv) (hno id' k' toks')
+          | inr h2 =>
+            obtain ⟨hr1, hr2⟩ := h2 c cont id k toks hc hcont
+            unfold tryEntryC
+            rw [hst]
+            rcases hrc : rec c cont with ⟨res, c'⟩
+            rw [hrc] at hr1 hr2
+            simp only at hr1 hr2
+            subst hr1
+            simp only [hrc]
+            exact ⟨hmem, hr2⟩
+      rcases ht : tryEntryC objs rec c n e with ⟨res, c'⟩
+      rw [ht] at htry
+      obtain ⟨h1, h2⟩ := htry
+      simp only at h1 h2
+      subst h1
+      simp [searchC, hg, ht, h2]
+
+theorem getobjC_objstm {whole objs ss} (h : Rep whole objs ss whole) (f : Nat) (c : Cache) (n : Nat)
+    (hc : CacheOK whole c) {id k toks} (hv : resolve whole n = some (.objstm id k toks)) :
+    (getobjC objs ss (f + 1) c n).1 = .ok (.objstm id k toks) ∧ CacheOK whole (getobjC objs ss (f + 1) c n).2 := by
+  have hspec : specGetobj whole n = .ok (.objstm id k toks) := by simp [specGetobj, hv]
+  unfold getobjC
+  cases hl : lookupNat c n with
+  | some v =>
+    have := hc n v hl
+    rw [hspec] at this
+    simp only [Except.ok.injEq] at this
+    subst this
+    exact ⟨rfl, hc⟩
+  | none =>
+    obtain ⟨h1, h2⟩ := searchC_rep h n (getobjC objs ss f) c hc (Or.inl ⟨id, k, toks, hv⟩)
+    rcases hs : searchC objs (getobjC objs ss f) n ss c with ⟨res, c'⟩
+    rw [hs] at h1 h2
+    simp only at h1 h2
+    rw [hspec] at h1
+    subst h1
+    exact ⟨rfl, cacheOK_cons h2 hspec⟩
+
+theorem getobjC_spec {whole objs ss} (h : Rep whole objs ss whole) (f : Nat) (c : Cache) (n : Nat)
+    (hc : CacheOK whole c) :
+    (getobjC objs ss (f + 2) c n).1 = specGetobj whole n ∧ CacheOK whole (getobjC objs ss (f + 2) c n).2 := by
+  unfold getobjC
+  cases hl : lookupNat c n with
+  | some v => exact ⟨(hc n v hl).symm, hc⟩
+  | none =>
+    obtain ⟨h1, h2⟩ := searchC_rep h n (getobjC objs ss (f + 1)) c hc
+      (Or.inr (fun c0 cont id k toks hc0 hcont => getobjC_objstm h f c0 cont hc0 hcont))
+    rcases hs : searchC objs (getobjC objs ss (f + 1)) n ss c with ⟨res, c'⟩
+    rw [hs] at h1 h2
+    simp only at h1 h2
+    cases res with
+    | ok v => exact ⟨h1, cacheOK_cons h2 h1.symm⟩
+    | error x => exact ⟨h1, h2⟩
+
+theorem queriesC_spec {whole objs ss} (h : Rep whole objs ss whole) (qs : List Nat) (c : Cache)
+    (hc : CacheOK whole c) : queriesC objs ss qs c = qs.map (specGetobj whole) := by
+  induction qs generalizing c with
+  | nil => rfl
+  | cons q qs ih =>
+    obtain ⟨h1, h2⟩ := getobjC_spec h (getobjFuel - 2) c q hc
+    simp only [queriesC, List.map_cons]
+    have hf : getobjFuel = getobjFuel - 2 + 2 := by decide
+    rw [hf]
+    rw [h1, ih _ h2]
+
 end PdfVerif.Xref
